@@ -17,7 +17,23 @@ type garbage struct {
 
 // mutate a well-formed condition into a non-sentence
 func mutateCond(r *Rng, valid string, other string) garbage {
-	switch r.Intn(14) {
+	switch r.Intn(15) {
+	case 14: // a function called with no operand at all, in every position an operand or a condition can take
+		f := pick(r, []string{"size", "attribute_exists", "begins_with", "contains", "attribute_type", "attribute_not_exists"})
+		switch r.Intn(6) {
+		case 0:
+			return garbage{f + "() BETWEEN :v0 AND :v1", "zero-operands", true}
+		case 1:
+			return garbage{pick(r, []string{"n1", "nosuch", ":v0"}) + " IN (:v0, " + f + "())", "zero-operands", true}
+		case 2:
+			return garbage{f + "().b = :v0", "zero-operands", true}
+		case 3:
+			return garbage{f + "()[0] = :v0", "zero-operands", true}
+		case 4:
+			return garbage{"(" + valid + ") AND " + f + "()", "zero-operands", true}
+		default:
+			return garbage{f + "() " + pick(r, []string{"=", "<>", "<"}) + " :v0", "zero-operands", true}
+		}
 	case 11: // a member of an IN list or a BETWEEN bound that is not an operand, on an attribute the item may lack
 		// ... or on a left operand that equals the member before the bad one (":v0 IN (:v0, bad)"): a match does not
 		// make the rest of the list well-formed
@@ -98,7 +114,19 @@ func mutateCond(r *Rng, valid string, other string) garbage {
 }
 
 func mutateUpdate(r *Rng, valid string) garbage {
-	switch r.Intn(10) {
+	switch r.Intn(11) {
+	case 10: // a function called with no operand at all
+		f := pick(r, []string{"if_not_exists", "list_append", "size"})
+		switch r.Intn(4) {
+		case 0:
+			return garbage{"SET a = " + f + "()", "zero-operands", true}
+		case 1:
+			return garbage{"SET a = " + f + "().b", "zero-operands", true}
+		case 2:
+			return garbage{"SET a = :v0 + " + f + "()", "zero-operands", true}
+		default:
+			return garbage{"SET " + f + "() = :v0", "zero-operands", true}
+		}
 	case 8, 9: // an unknown byte at the very beginning or the very end
 		// ... including the bytes that other definitions of "white space" would skip (vertical tab, form feed, NEL, NBSP)
 		ch := pick(r, []string{"\x00", "\xff", "!", "\x80", "\x7f", "\x01", "\v", "\f", "\x85", "\xa0", "\v", "\xa0"})
